@@ -25,6 +25,7 @@ from ..extract import validator as _ex
 from ..extract import units as _exu
 from ..extract import validator_guards as _exg
 from . import c14_units as SI
+from . import c14_guards as G
 
 PROP = "C14"
 LEAN_MODULE = "NixModel.Props.C14"
@@ -1470,11 +1471,14 @@ def gen_cases(ctx, scope, n_plain, n_bases, singles_per_base, pairs_per_base, ex
     return cases
 
 
-def run_case(ctx, recipe):
-    """build, describe, validate; returns (description, impl result keyed by walk path, impl keyed by recipe path)"""
+def run_case(ctx, recipe, guards=None, gstats=None, walk=True):
+    """build, describe, validate; returns (description, impl result keyed by walk path, impl keyed by recipe path).
+    guards (a list) receives, for every object of the file, the compiled-guard case and what the interpreter finds"""
     f, ids = build(ctx, recipe)
     try:
-        desc, keys = describe(f)
+        desc, keys = describe(f) if walk else (None, {})
+        if guards is not None:
+            guards.extend(G.collect(f, gstats))
         raw = run_validate(f)
         impl = keyed(f, raw, keys)
         impl_r = keyed(f, raw, ids)
@@ -1494,14 +1498,16 @@ def correspondence(ctx):
     def q(quick, thorough):
         """per-base counts: by tier only (the number of bases carries the harness's budget boost)"""
         return quick if ctx.quick() else thorough
-    cases = corpus + gen_cases(ctx, "all", ctx.budget(14, 80), ctx.budget(10, 24), q(12, 30),
+    cases = corpus + gen_cases(ctx, "all", ctx.budget(10, 80), ctx.budget(7, 24), q(12, 30),
                                q(12, 40), exhaustive_bases=ctx.budget(0, 2), exhaustive_pairs=300,
-                               n_multiref=ctx.budget(24, 100), n_multi=ctx.budget(16, 60),
+                               n_multiref=ctx.budget(18, 100), n_multi=ctx.budget(12, 60),
                                n_sweep=ctx.budget(3, 12), sweep_size=ctx.budget(24, 40))
     descs, impls = [], []
-    dist = {"labels": {}, "injections": {}, "impl_errors": {}, "messages": {}}
-    for label, recipe, injs in cases:
-        desc, impl, _ = run_case(ctx, recipe)
+    dist = {"labels": {}, "injections": {}, "impl_errors": {}, "messages": {}, "guards": {}}
+    gpairs = []
+    gfiles = ctx.budget(20, 300)        # files whose objects also go through the compiled guards
+    for ci, (label, recipe, injs) in enumerate(cases):
+        desc, impl, _ = run_case(ctx, recipe, gpairs if ci % 2 == 0 and ci < 2 * gfiles else None, dist["guards"])
         descs.append(["validate", desc])
         impls.append(impl)
         dist["labels"][label] = dist["labels"].get(label, 0) + 1
@@ -1514,8 +1520,14 @@ def correspondence(ctx):
                 for m in msgs:
                     nm = m[2] if m[0] in ("feature", "property") else m[0]
                     dist["messages"][nm] = dist["messages"].get(nm, 0) + 1
-    model = core.run_driver(PROP, descs)
+    gpairs = G.dedup(gpairs)
+    model = core.run_driver(PROP, descs + [c for c, _r in gpairs])
+    gmodel, model = model[len(descs):], model[:len(descs)]
     disagreements = []
+    for (case, res), m in zip(gpairs, gmodel):
+        if m != res:
+            disagreements.append(Disagreement(case, m, res))
+    dist["guards"]["distinct"] = len(gpairs)
     seen = set()
     for (label, recipe, injs), d, m, i in zip(cases, descs, model, impls):
         i2 = {k: v for k, v in i.items() if k != "text"}
@@ -1526,7 +1538,7 @@ def correspondence(ctx):
     disagreements.sort(key=lambda d: len(core.canon(d.case)))
     samples = [{"case": cases[k][2], "label": cases[k][0], "model": model[k]} for k in
                sorted(ctx.rng.sample(range(len(cases)), min(6, len(cases))))]
-    return {"evaluations": len(cases), "distinct_nontrivial": len(seen),
+    return {"evaluations": len(cases) + len(gpairs), "distinct_nontrivial": len(seen),
             "rule": "generated well-formed files (1-2 blocks; arrays of rank 1-3 in families that share per-dimension "
                     "quantities, range/sampled/set descriptor mixes, units = prefix x base unit x power over the "
                     "complete SI tables with a bias to look-alike symbols; tags and multi-tags with 0-4 references, "
@@ -1537,7 +1549,10 @@ def correspondence(ctx):
                     "unconvertible / non-SI unit pairs) (thorough: all singles and 300 sampled pairs on 2 bases); each "
                     "case is a real HDF5 file; model(description) and validate()['errors'] compared exactly (objects, "
                     "order, messages with arguments, or the exception class). non-trivial = at least one error "
-                    "reported or an exception; distinct by canonical result",
+                    "reported or an exception; distinct by canonical result. On every second file the conditions of "
+                    "the report sites are also evaluated per object: by the Python interpreter (the AST nodes of "
+                    "validator.py on the real nixio object) and by the driver (the compiled PyGuard expressions on "
+                    "the values the reads returned), compared exactly",
             "samples": samples, "distribution": dist, "disagreements": disagreements, "exhaustive": False}
 
 
@@ -1548,7 +1563,7 @@ def check_recipe(ctx, recipe, injs=None):
     """Failures of the property on this recipe: validate() must return, and report exactly `expect(recipe)`"""
     und = {}
     want = expect(recipe, und)
-    _desc, _impl, impl = run_case(ctx, recipe)
+    _desc, _impl, impl = run_case(ctx, recipe, walk=False)      # the oracle needs no description of the file
     inp = ["recipe", recipe, injs or []]
     if "err" in impl:
         return [Failure("validate() raised %s instead of reporting" % impl["err"], inp,
@@ -1685,9 +1700,9 @@ def oracle(ctx, broken, hints):
                            n_multiref=ctx.budget(40, 400), n_multi=ctx.budget(20, 200),
                            n_sweep=ctx.budget(5, 40), sweep_size=ctx.budget(30, 40))
     else:
-        cases += gen_cases(ctx, "property", ctx.budget(6, 30), ctx.budget(6, 16), q(8, 25),
+        cases += gen_cases(ctx, "property", ctx.budget(5, 30), ctx.budget(5, 16), q(8, 25),
                            q(8, 30), exhaustive_bases=ctx.budget(0, 1), exhaustive_pairs=300,
-                           n_multiref=ctx.budget(24, 100), n_multi=ctx.budget(12, 60),
+                           n_multiref=ctx.budget(16, 100), n_multi=ctx.budget(8, 60),
                            n_sweep=ctx.budget(3, 12), sweep_size=ctx.budget(24, 40), each_kind=not ctx.quick())
     failures = []
     seen = set()
